@@ -35,7 +35,8 @@ def classify(prog):
     # a negated literal on a predicate that lies on a (positive or negative) dependency cycle
     for h, deps in preds_pos.items():
         for (p, y) in deps:
-            if not p and y in preds_pos and y in reach(y):
+            if not p and y in preds_pos and (y in reach(y) or any(z in reach(z) for z in reach(y))):
+                # the negated predicate is recursive or depends on a recursive predicate
                 cls.add("negated-recursive-predicate")
     # predicate-level negative cycle
     for h, deps in preds_pos.items():
@@ -54,7 +55,7 @@ def check_one(prog):
     src = progs.render(prog)
     out = _judge(prog, sem, src, *evaluate_src(src))
     if any(s[0] == "evidence" for s in prog):
-        out2 = _judge(prog, sem, src, *evaluate_src(src, ground_kwargs=dict(propagate_evidence=True)))
+        out2 = _judge(prog, sem, src, *evaluate_src(src, ground_kwargs=dict(propagate_evidence=True)), pe=True)
         seen = set(out["violations"])
         for name, text in out2["violations"]:
             if (name, text) not in seen:
@@ -63,7 +64,7 @@ def check_one(prog):
     return out
 
 
-def _judge(prog, sem, src, st, res):
+def _judge(prog, sem, src, st, res, pe=False):
     out = dict(src=src, outcome=(st, res if st == "exc" else sorted(res.items())), classes=sorted(classify(prog)),
                nontrivial=False, violations=[])
     must_reject = sem["undefined"]
@@ -74,6 +75,10 @@ def _judge(prog, sem, src, st, res):
         out["violations"].append((name, text))
     if st == "exc" and res.startswith("internal:"):
         viol("internal-exception", "raised %s" % res)
+        return out
+    if pe and must_reject and not sem["undefined_consistent"]:
+        # the three-valued worlds are all excluded by the evidence, and with evidence propagation the engine prunes
+        # them while grounding: "stratified only after goal-directed pruning" - either outcome is acceptable
         return out
     if must_reject:
         out["nontrivial"] = True
